@@ -52,9 +52,10 @@ pub fn infer_env_schema(ast: &tx3_lang::ast::Program) -> Schema {
 
     if let Some(env) = &ast.env {
         for field in env.fields.iter() {
+            // the IR names its arguments in lower case (as parties are below)
             let field_schema = map_ast_type_to_json_schema(&field.r#type);
-            properties.insert(field.name.clone(), field_schema);
-            required.push(field.name.clone());
+            properties.insert(field.name.to_lowercase(), field_schema);
+            required.push(field.name.to_lowercase());
         }
     }
 
@@ -74,8 +75,8 @@ pub fn infer_tx_params_schema(ast: &tx3_lang::ast::TxDef) -> Schema {
 
     for param in ast.parameters.parameters.iter() {
         let field_schema = map_ast_type_to_json_schema(&param.r#type);
-        properties.insert(param.name.value.clone(), field_schema);
-        required.push(param.name.value.clone());
+        properties.insert(param.name.value.to_lowercase(), field_schema);
+        required.push(param.name.value.to_lowercase());
     }
 
     let schema_json = json!({
@@ -137,7 +138,7 @@ fn infer_environment_values_from_dotfile(
 
     if let Some(def) = &ast.env {
         for field in def.fields.iter() {
-            let key = field.name.clone();
+            let key = field.name.to_lowercase();
 
             if let Some(value) = env.get(key.as_str()) {
                 obj.insert(key, map_dotfile_value_to_json(value, &field.r#type));
